@@ -396,6 +396,11 @@ func (c *contentValidator) ValidateRequestAccept(ch *aclrecordproto.AclAccountRe
 	if !acceptIdentity.Equals(record.RequestIdentity) {
 		return ErrIncorrectIdentity
 	}
+	if !c.aclState.Permissions(acceptIdentity).NoPermissions() {
+		// the requester became a member by another route (e.g. a direct add) while the request was
+		// pending: accepting it now would re-permission an existing member (a guest included)
+		return ErrInsufficientPermissions
+	}
 	if ch.Permissions == aclrecordproto.AclUserPermissions_Owner {
 		return ErrInsufficientPermissions
 	}
